@@ -52,7 +52,7 @@ Print Assumptions C15_callbacks_pair.
 
 (** ... and exactly that pair, same session value, once it has returned. *)
 Theorem C15_callbacks_pair_finished : forall s t th,
-  reachable s -> get t (threads s) = Some th -> th_pc th = P6 ->
+  reachable s -> get t (threads s) = Some th -> th_pc th = P6 -> th_crashed th = false ->
   proj t (log s) =
     [Connect (th_name th) (th_sess th) t; Disconnect (th_name th) (th_sess th) t].
 Proof. exact callbacks_pair_finished. Qed.
@@ -65,10 +65,30 @@ Print Assumptions C15_no_stray_notification.
 
 (** No connection ever waits for another inside the registry. *)
 Theorem C15_next_action_enabled : forall s t th a,
-  get t (threads s) = Some th -> next_action t th = Some a ->
+  get t (threads s) = Some th -> th_crashed th = false -> next_action t th = Some a ->
   exists s', step s a = Some s'.
 Proof. exact next_action_enabled. Qed.
 Print Assumptions C15_next_action_enabled.
+
+(** A connection whose callback / OnConnect panicked: no notification at
+    all; its deferred unmap and Close still run, so it is not left
+    registered.  A failed websocket upgrade changes nothing. *)
+Theorem C15_crashed_is_silent : forall s t th,
+  reachable s -> get t (threads s) = Some th -> th_crashed th = true ->
+  proj t (log s) = [].
+Proof. exact crashed_is_silent. Qed.
+Print Assumptions C15_crashed_is_silent.
+
+Theorem C15_crashed_still_unmaps : forall s t th,
+  get t (threads s) = Some th -> th_pc th = P1 ->
+  exists s1 s2 s3, step s (ACrash t) = Some s1 /\ step s1 (AUnmap t) = Some s2 /\
+                   step s2 (AClose t) = Some s3 /\ lookup_name s3 (th_name th) <> Some t.
+Proof. exact crashed_still_unmaps. Qed.
+Print Assumptions C15_crashed_still_unmaps.
+
+Theorem C15_failed_upgrade_is_noop : forall s t n, step s (AUpgradeFail t n) = Some s.
+Proof. exact failed_upgrade_is_noop. Qed.
+Print Assumptions C15_failed_upgrade_is_noop.
 
 (** The tie to the source. *)
 Theorem C15_source_shape :
@@ -128,3 +148,11 @@ Example C15_ex_order_enforced :
   exec init [AUpgrade 1 7; AUnmap 1] = None /\
   exec init [AUpgrade 1 7; AUpgrade 1 7] = None.
 Proof. vm_compute. split; reflexivity. Qed.
+
+(** A connection whose OnConnect panics while it is the registered one. *)
+Example C15_ex_crash :
+  match exec init [AUpgrade 1 7; AConnect 1 100; AUpgrade 2 7; ACrash 2; AUnmap 2; AClose 2] with
+  | Some s => lookup_name s 7 = None /\ proj 2 (log s) = [] /\ proj 1 (log s) = [Connect 7 100 1]
+  | None => False
+  end.
+Proof. vm_compute. repeat split. Qed.
